@@ -18,7 +18,8 @@ from . import common as C
 
 CATS = ["default", "app", "app.net", "net", "ui.dialog", "x"]
 TYPES = ["debug", "info", "warning", "critical"]
-TEXTS = ["started", "connection lost", "value=42", "a%b{c}", "ERROR: disk", "retry #3", "ok", "net down", "x"]
+TEXTS = ["started", "connection lost", "value=42", "a%b{c}", "ERROR: disk", "retry #3", "ok", "net down", "x",
+         "gr\u00fc\u00dfe", "\u0436\u0443\u0440\u043d\u0430\u043b ok", "\u4e2d\u6587 value"]
 NOSPEC = {"on": False, "fill": 32, "fillgiven": False, "align": "none", "width": 0, "bang": False}
 
 
